@@ -877,9 +877,11 @@ def gen_icwalk_trace(seed):
     ops = [["LOAD", nprog]]
     pc = 0
     marathon = R.marathon(seed)
+    if marathon >= 1000 and R.stream(seed, "marathon-shape").random() < 0.6:
+        cfg["ib"] = 0  # narrow marathon: every fetch goes to the one set of a fully associative cache
     for _ in range(marathon or r.choice([r.randint(1, 10), r.randint(8, 60), r.randint(40, 150)]) * R.deep(r)):
         k = r.random()
-        if marathon and 0.9 <= k < 0.93 and r.random() < 0.97:
+        if marathon and 0.9 <= k < 0.93 and r.random() < 0.995:
             k = 0.1  # marathons: a reset only every thousand fetches or so, counts and ages grow in between
         if k < 0.55:
             pc = pc + 4  # sequential fetch
